@@ -135,6 +135,23 @@ ROUND6 = {
     "C20": " A keyspace name taken from the server's SET_KEYSPACE answer is spread case-sensitively.",
 }
 
+# clauses added by the seventh seed round
+ROUND7 = {
+    "C01": " Signed vints use the one 64-bit zig-zag codec; the 32-bit duration components are widened before it.",
+    "C02": " The stream-id bitmap and the orphan tracker are created once per connection and never reset while it lives.",
+    "C03": " The sink that receives the encoded partition key forwards every chunk at once, in call order.",
+    "C05": " pick() and fallback() agree on whether the request is routed by token.",
+    "C07": " A stream id is released only when its response arrives, so a late page cannot answer a later page request.",
+    "C08": " An error-yielding parser stream latches after its first error or is never drained by an exhaustive consumer (a genuine hang was found and repaired). The generated by-name type_check refuses duplicated field names (the guard the derive deserializers' assertions rely on).",
+    "C09": " The batch value adapter is as long as the value lists, so surplus value lists are seen and refused.",
+    "C10": " Between the first connection error and the broadcast to pending handlers the router awaits nothing.",
+    "C12": " Tablet replicas follow a node whose Node object was re-created (identity, not host-id equality).",
+    "C14": " A metadata id announced with the answer to the re-sent EXECUTE is recorded from THAT answer.",
+    "C15": " Maintenance is told old and new topology in their places on every refresh path; re-created nodes are recognised by object identity.",
+    "C16": " Ordered type_check refuses a UDT that ends before a required field; by-name type_check refuses duplicated names.",
+    "C19": " A newer status hint is never dropped in favour of an older pending one.",
+}
+
 NOT_APPLICABLE = {
 }
 
@@ -153,7 +170,7 @@ def main():
                 "evidence_file": "/verif/evidence/%s.json" % pid,
                 "replay_cmd_template": "./check explain {path}",
                 "engine": "scyllalint",
-                "level_claimed": {"category": "other", "text": text + ROUND4.get(pid, "") + ROUND5.get(pid, "") + ROUND6.get(pid, ""), "design_ref": ref},
+                "level_claimed": {"category": "other", "text": text + ROUND4.get(pid, "") + ROUND5.get(pid, "") + ROUND6.get(pid, "") + ROUND7.get(pid, ""), "design_ref": ref},
                 "level_note": note,
                 "technique": tech,
             })
